@@ -21,12 +21,42 @@ type built struct {
 }
 
 type probeProc struct {
-	cmd *exec.Cmd
-	in  io.WriteCloser
-	out *bufio.Reader
+	bin   string
+	cmd   *exec.Cmd
+	in    io.WriteCloser
+	out   *bufio.Reader
+	dirty bool // queries were answered since the process started
+}
+
+// start launches the probe binary and waits for its hello line.
+func (p *probeProc) start() (string, error) {
+	cmd := exec.Command(p.bin)
+	in, _ := cmd.StdinPipe()
+	po, _ := cmd.StdoutPipe()
+	cmd.Stderr = os.Stderr
+	if err := cmd.Start(); err != nil {
+		return "", err
+	}
+	p.cmd, p.in, p.out, p.dirty = cmd, in, bufio.NewReaderSize(po, 1<<20), false
+	hello, _ := p.out.ReadString('\n')
+	return strings.TrimSpace(hello), nil
+}
+
+// fresh: every case starts from a new probe process. The probe mutates the slices the generated
+// API hands out; if that leaks into package state, the damage must stay inside the case that
+// caused it, so that a case (and its replay, and its shrunk form) is self-contained.
+func (p *probeProc) fresh() {
+	if !p.dirty {
+		return
+	}
+	p.in.Close()
+	p.cmd.Process.Kill()
+	p.cmd.Wait()
+	p.start()
 }
 
 func (p *probeProc) ask(line string) string {
+	p.dirty = true
 	if _, err := io.WriteString(p.in, line+"\n"); err != nil {
 		return "probe-dead"
 	}
@@ -237,18 +267,14 @@ func (w *world) tryBuild(defs []*Def) []*built {
 		setAll("err:compile", string(out))
 		return res
 	}
-	cmd := exec.Command(bin)
-	in, _ := cmd.StdinPipe()
-	po, _ := cmd.StdoutPipe()
-	cmd.Stderr = os.Stderr
-	if err := cmd.Start(); err != nil {
+	p := &probeProc{bin: bin}
+	hello, err := p.start()
+	if err != nil {
 		setAll("err:probe-start", err.Error())
 		return res
 	}
-	p := &probeProc{cmd: cmd, in: in, out: bufio.NewReaderSize(po, 1<<20)}
 	w.procs = append(w.procs, p)
-	hello, _ := p.out.ReadString('\n')
-	if strings.TrimSpace(hello) != "ready" {
+	if hello != "ready" {
 		setAll("err:harness-table", hello)
 		return res
 	}
@@ -705,13 +731,30 @@ func newProbe[T enumI[T]](parse func(any) (T, error), signed bool, bits int, tra
 			}
 			return res(decode(args[0], b))
 		case "values":
+			// every slice the generated API returns is caller-owned: read it, then mutate it in place
+			// (reverse, overwrite the first element); later queries must not notice
+			vs := zero.Values()
 			var r []string
-			for _, v := range zero.Values() {
+			for _, v := range vs {
 				r = append(r, fmtI(v, signed))
+			}
+			for i, j := 0, len(vs)-1; i < j; i, j = i+1, j-1 {
+				vs[i], vs[j] = vs[j], vs[i]
+			}
+			if len(vs) > 0 {
+				vs[0] = vs[0] + 1
 			}
 			return join(r)
 		case "strvals":
-			return join(zero.StringValues())
+			ss := zero.StringValues()
+			out := join(ss)
+			for i, j := 0, len(ss)-1; i < j; i, j = i+1, j-1 {
+				ss[i], ss[j] = ss[j], ss[i]
+			}
+			if len(ss) > 0 {
+				ss[0] = "mutated-by-the-caller"
+			}
+			return out
 		case "valid":
 			vs, ok := vals(arg)
 			if !ok {
